@@ -1104,7 +1104,7 @@ fn good_op(w: &mut World, alice: Pubkey, m0: usize, toks: (usize, usize, usize),
 
 fn twin_shard(args: &Args, shard: u64, m: &mut Monitor) {
     let mut rng = Rng::derive(args.seed, shard, 2121);
-    let iters = args.scale(30, 80);
+    let iters = args.scale(30, 60);
     let mut w = World::bootstrap_store();
     w.bootstrap_oracle();
     let btc = w.add_token("BTC", 8, 2, true);
@@ -1299,9 +1299,9 @@ pub fn run(args: &Args) -> Option<i32> {
     mon.assume("market accounts are created by the real initialize_market; market-token vault balance / supply are seeded by state injection so that burns have something to burn");
     mon.assume("`next_trade_id` is documented to derive from the stored trade count (idempotent inside one operation); the model follows that");
     mon.assume("failed / panicking transactions are rolled back by the runtime (hostsvm atomicity), the model is rolled back with them");
-    let shards = args.scale(64, 256);
-    let txs = args.scale(3_000, 8_000);
-    let twin_shards = args.scale(16, 64);
+    let shards = args.scale(64, 192);
+    let txs = args.scale(3_000, 6_000);
+    let twin_shards = args.scale(16, 48);
     let quiet = hostsvm::QuietStdout::new();
     run_shards(&mut mon, args.threads, shards + twin_shards, |shard, m| {
         if shard >= shards {
